@@ -692,6 +692,59 @@ def rule_glue(repo, rule):
         rule.undecided(vg.loc(), vg.fq, "%d vc_declare_block calls" % len(decl), "vc_glue not in the two-block shape")
 
 
+def rule_file_names(repo, rule):
+    """Equation files, keys and block files are looked up by function / block name.  The consistency check of qapsplit is keyed by
+    the NAME, so two names that map to one file silently overwrite each other's artefacts.  Every one-parameter path helper of
+    qaptools/options.py must therefore use its parameter as it is (or through an injective spelling)."""
+    m = repo.modules.get("pysnark.qaptools.options")
+    if m is None:
+        raise AnalysisError("pysnark.qaptools.options not found")
+    from ..flatten import resolve_locals
+    LOSSY = ("sub", "replace", "translate", "lower", "upper", "casefold", "strip", "hash", "format", "basename", "split", "encode", "title")
+    INJECTIVE = ("str", "quote", "quote_plus", "hexlify", "b64encode", "urlsafe_b64encode", "repr")
+    for fi in sorted(m.functions.values(), key=lambda f: f.node.lineno):
+        if not isinstance(fi.node, ast.FunctionDef) or len(fi.params) != 1 or not fi.name.startswith("get_"):
+            continue
+        p = fi.params[0]
+        rets = [r for r in ast.walk(fi.node) if isinstance(r, ast.Return) and r.value is not None]
+        if not rets:
+            continue
+        for r in rets:
+            e = resolve_locals(fi.node, r.value)
+            comps = [b for b in ast.walk(e) if isinstance(b, ast.BinOp) and isinstance(b.op, ast.Add) and isinstance(b.left, ast.Constant)
+                     and isinstance(b.left.value, str)]
+            if not comps:
+                continue
+            x = comps[0].right
+            names = {n.id for n in ast.walk(x) if isinstance(n, ast.Name)}
+            # the component may be re-bound step by step (nm = str(nm) ...): judge every call that the parameter flows through
+            tainted = {p}
+            grew = True
+            while grew:
+                grew = False
+                for a_ in ast.walk(fi.node):
+                    if isinstance(a_, ast.Assign) and len(a_.targets) == 1 and isinstance(a_.targets[0], ast.Name) and a_.targets[0].id not in tainted \
+                            and any(isinstance(n, ast.Name) and n.id in tainted for n in ast.walk(a_.value)):
+                        tainted.add(a_.targets[0].id)
+                        grew = True
+            flows = [c for c in list(ast.walk(fi.node)) + list(ast.walk(x)) if isinstance(c, ast.Call) and any(
+                isinstance(n, ast.Name) and n.id in names | tainted for a in c.args for n in ast.walk(a))]
+            lossy = [c for c in flows if norm(c.func).split(".")[-1] in LOSSY] + [
+                s for s in ast.walk(x) if isinstance(s, ast.Subscript)]
+            unknown = [c for c in flows if norm(c.func).split(".")[-1] not in LOSSY + INJECTIVE + ("join", "ValueError", "TypeError")]
+            term = "%s: %s" % (fi.name, norm(comps[0])[:80])
+            if lossy:
+                rule.violation(fi.loc(r), fi.fq, term, "the name is rewritten by `%s` before it becomes a file name: different "
+                               "function / block names can map to the same file, and nothing detects the clash" % norm(lossy[0])[:50],
+                               "fname/%s" % fi.name)
+            elif unknown:
+                rule.undecided(fi.loc(r), fi.fq, term, "name passes through `%s`" % norm(unknown[0].func))
+            elif p in names or any(isinstance(n, ast.Name) and n.id == p for c in flows for n in ast.walk(c)):
+                rule.ok(fi.loc(r), fi.fq, term, "the name itself (distinct names, distinct files)")
+            else:
+                rule.undecided(fi.loc(r), fi.fq, term, "file-name component does not mention the parameter")
+
+
 def rule_unique_names(repo, rule):
     """Wire and block names are built from per-context counters: every name taken from a counter must consume it
     (an increment of the same counter in the same statement list), otherwise two wires / blocks of one context share
@@ -1015,5 +1068,7 @@ def check(repo, rep, tier):
     rule_no_hash_keys(repo, r10, (QB, QS))
     r9 = rep.rule("R-C12-9", "a block lists exactly the members it is given, in order", floor=2)
     rule_members(repo, r9)
+    r12 = rep.rule("R-C12-12", "per-function / per-block files are named injectively (the name itself is the file-name component)", floor=4)
+    rule_file_names(repo, r12)
     r7 = rep.rule("R-C12-7", "block members are unit wires", floor=2)
     rule_unit(repo, r7)
